@@ -14,6 +14,8 @@ CHECKS = {
          "Lean 4 proof (loop invariant by induction on iterations) + scripted-oracle correspondence + flag oracle on constructed families", "§3 C06"),
  "C12": ("Lean theorems over exact rationals for the grid loop of backward_euler / implicit_trapezoid (grid values t0+k*h, first exit index, step count <= floor((tend-t0)/h)+1 so the buffer never overflows, exact arrival at tend for integral ratios, overshoot < one step otherwise); the Float behaviour of all three integrators (incl. fdae_solver's shortened last step) is tied by bit-exact grid comparison on (t0,tend,h) triples; step equations are evaluated on returned rows by an oracle. fdae grid and step equations: correspondence/oracle only (partial)",
          "Lean 4 proof (induction over loop iterations, Mathlib linarith over Q) + bit-exact Float grid correspondence + step-equation oracle", "§3 C12"),
+ "C11": ("Lean theorems about the DaeIc controller for arbitrary residual / linear-solve oracles: only algebraic positions are ever written (states bit-identical), and every returned point has algebraic residual <= 1e-6 (exits A, C) or <= 1e-5*rtol (exit B), anything else raises; tied to the real DaeIc by bit-exact Float runs on a quadratic-constraint family where Lean evaluates the oracles itself; the four DAE solvers' first rows are checked by an oracle on index-1 families with interleaved variable and equation order",
+         "Lean 4 proof (induction over Newton iterations and probes) + bit-exact controller correspondence + first-row oracle", "§3 C11"),
 }
 REASONS = {}
 props = [json.loads(l)["id"] for l in open(os.path.join(V, "properties.jsonl"))]
